@@ -52,12 +52,13 @@ TOL = 1e-8
 
 
 def _f12(sub, recipe):
-    """PauliStringPhasorGate whose dense Pauli string contains an identity position (or is empty)."""
+    """PauliStringPhasorGate whose dense Pauli string is the identity on every position (or empty): the global phase
+    e^{i pi exponent_pos} is dropped."""
     g = recipe.get("g") if isinstance(recipe, dict) else None
-    return bool(g) and g[0] == "PauliStringPhasor" and ("I" in g[1].get("ps", []) or len(g[1].get("ps", [])) == 0)
+    return bool(g) and g[0] == "PauliStringPhasor" and all(c == "I" for c in g[1].get("ps", []))
 
 
-KNOWN_FEATURES = {"F12_phasor_identity_positions": _f12}
+KNOWN_FEATURES = {}  # F12 / F12b (PauliStringPhasorGate identity positions) were repaired in /repo: regression examples below
 
 
 def _dev_exclude(sub, recipe):
@@ -462,7 +463,10 @@ _CHANNEL = st.fixed_dictionaries({"g": GX.gate_recipes(_is_channel_family, max_a
 SUBCHECKS = [
     SubCheck("unitary_families", _UNITARY, oracle_unitary, quick=24000, thorough=600000, shards_quick=8, shards_thorough=16,
              essential={"two_forms": 0.3, "shifted": 0.1, "qudit": 0.03},
-             examples=[{"g": ["BooleanHamiltonian", {"names": ["x0", "x1"], "exprs": [["^", ["v", "x0"], ["v", "x0"]]], "theta": 0.5}]},
+             examples=[{"g": ["PauliStringPhasor", {"neg": 0.5, "pos": 0.0, "ps": ["I", "Z"], "sign": 1}]},  # F12 (fixed)
+                       {"g": ["PauliStringPhasor", {"neg": 0.0, "pos": 1.0, "ps": ["I"], "sign": 1}]},  # F12b (fixed)
+                       {"g": ["PauliStringPhasor", {"neg": 0.25, "pos": -0.5, "ps": ["X", "I", "Y"], "sign": -1}]},
+                       {"g": ["BooleanHamiltonian", {"names": ["x0", "x1"], "exprs": [["^", ["v", "x0"], ["v", "x0"]]], "theta": 0.5}]},
                        {"g": ["BooleanHamiltonian", {"names": ["x0"], "exprs": [["|", ["v", "x0"], ["~", ["v", "x0"]]]], "theta": 0.5}]}]),
     SubCheck("unitary_families_even", _UNITARY_EVEN, oracle_unitary, quick=8000, thorough=200000, shards_quick=4, shards_thorough=16),
     SubCheck("channels", _CHANNEL, oracle_channel, quick=6000, thorough=150000, shards_quick=3, shards_thorough=16,
